@@ -27,12 +27,15 @@ def run_cli(ctx, args, cwd=None, env_extra=None, timeout=600, hashseed="0"):
     env.pop("WHATSHAP_VERIF_TRACE", None)
     if env_extra:
         env.update(env_extra)
-    try:
-        r = subprocess.run([PY, "-m", "whatshap"] + [str(a) for a in args], cwd=cwd, env=env,
-                           stdout=subprocess.PIPE, stderr=subprocess.PIPE, text=True, timeout=timeout)
-        return r.returncode, r.stdout, r.stderr
-    except subprocess.TimeoutExpired as e:
-        return 124, (e.stdout or b"").decode() if isinstance(e.stdout, bytes) else (e.stdout or ""), "TIMEOUT"
+    # a run that hits the time limit on a busy machine is repeated once with a longer limit before it counts as a hang
+    for limit in (timeout, min(3 * timeout, timeout + 900)):
+        try:
+            r = subprocess.run([PY, "-m", "whatshap"] + [str(a) for a in args], cwd=cwd, env=env,
+                               stdout=subprocess.PIPE, stderr=subprocess.PIPE, text=True, timeout=limit)
+            return r.returncode, r.stdout, r.stderr
+        except subprocess.TimeoutExpired as e:
+            last = e
+    return 124, (last.stdout or b"").decode() if isinstance(last.stdout, bytes) else (last.stdout or ""), "TIMEOUT"
 
 
 def run_py(ctx, code, cwd=None, env_extra=None, timeout=600, hashseed="0", stdin=None):
